@@ -106,7 +106,8 @@ def run(ctx):
         if t is None:
             ctx.violation(sigs(e), "%s: cannot be built/printed: %s" % (e, json.dumps(o)[:300]), {"stage": "universe", "expr": e})
             continue
-        if t != want:
+        if t != want and "quote" not in want:
+            # (a list headed by quote may legitimately be written with the abbreviation; it is judged by reading back)
             ctx.violation(sigs(e), "%s: display writes %r, the specification's Print gives %r" % (e, t, want), {"stage": "universe", "expr": e})
             continue
         items.append((e, v["value"], t, b))
